@@ -6,6 +6,7 @@ import (
 	"sort"
 
 	"github.com/kercylan98/minotaur/engine/vivid/dispatcher"
+	"github.com/kercylan98/minotaur/engine/vivid/internal/messages"
 	"github.com/kercylan98/minotaur/engine/vivid/mailbox"
 	"github.com/kercylan98/minotaur/toolkit"
 )
@@ -68,4 +69,12 @@ func VerifInfo(m mailbox.Mailbox) (info VerifActorInfo, ok bool) {
 func VerifIsRegistered(sys *ActorSystem, ref ActorRef) bool {
 	_, ok := sys.rc.GetProcess(ref).(*actorProcess)
 	return ok
+}
+
+// VerifPublishPayload exposes topic and payload of a local publish request (internal message type).
+func VerifPublishPayload(m Message) (topic string, payload Message, ok bool) {
+	if p, isP := m.(*messages.LocalPublishRequest); isP {
+		return p.Topic, p.Message, true
+	}
+	return "", nil, false
 }
